@@ -207,6 +207,11 @@ def _pt_check_cases():
         def build(f, n=n):
             return dict(self=mk_PT(f, 'T', n))
         yield 'types=%d' % n, build
+    for n in SIZES[:2]:
+        def build2(f, n=n):
+            # values with an elementwise `==` (numpy arrays of any length, also 0 and 1): `is None` is not `== None`
+            return dict(self=mk_PT(f, 'T', n, mk_val=lambda a, b: f.array('T_%s%s' % (a, b), (f.int('L_%s%s' % (a, b), lo=0),))))
+        yield 'types=%d, array values' % n, build2
 
 
 @contract('pyPRISM/core/PairTable.py::PairTable.setUnset', props=['C14'])
@@ -361,6 +366,11 @@ def _vt_check_cases():
         def build(f, n=n):
             return dict(self=mk_VT(f, 'T', n))
         yield 'types=%d' % n, build
+    for n in SIZES:
+        def build2(f, n=n):
+            # values with an elementwise `==` (numpy arrays of any length, also 0 and 1): `is None` is not `== None`
+            return dict(self=mk_VT(f, 'T', n, mk_val=lambda a: f.array('T_%s' % a, (f.int('L_%s' % a, lo=0),))))
+        yield 'types=%d, array values' % n, build2
 
 
 @contract('pyPRISM/core/ValueTable.py::ValueTable.setUnset', props=['C14'])
